@@ -11,7 +11,7 @@ RULE = ("random programs using constants as gate argument, qubit index, register
 ASSUMPTIONS = ["reference let evaluation in vf/meaning.py", "override values are numbers; overrides that the reference "
                "semantics finds out of range are not judged here (C14)"]
 TIERS = {"quick": {"shards": 8, "budget_s": 75}, "thorough": {"shards": 16, "budget_s": 300}}
-REQUIRE = {"calls-after-earlier-calls-on-same-object": 500, "override-used": 200, "let-sized-register": 100, "let-bound-map": 100, "shadowed-let-in-macro": 20,
+REQUIRE = {"via-parser-expand-let-map": 500, "calls-after-earlier-calls-on-same-object": 500, "override-used": 200, "let-sized-register": 100, "let-bound-map": 100, "shadowed-let-in-macro": 20,
            "via-parser": 100, "let-count": 100}
 
 
@@ -52,6 +52,27 @@ def judge(case):
     except M.OracleError as ex:
         return "inconclusive:oracle:%s" % ex, []
     fails = []
+    if via_parser and case.get("via_parser") == "map":
+        # the parser asked to substitute lets AND aliases (expand_let_map=True) under the overrides: every reference of the
+        # result is on the fundamental register and denotes the qubit the overridden program denotes
+        o = lib.outcome(lib.parse, text, expand_let_map=True, override_dict=dict(ov) or None)
+        if o[0] == "jaqal":
+            o1 = lib.outcome(lib.parse, text, expand_let=True, override_dict=dict(ov) or None)
+            if o1[0] == "ok":
+                return "skipped:fill_in_map-precondition", []
+            return "ok", [("rejected-valid-program:expand_let_map", {"error": o[2], "ov": ov})]
+        if o[0] == "exc":
+            return "ok", [("crash:expand_let_map:" + o[1], {"error": o[2], "ov": ov})]
+        try:
+            kr = M.core_from_ir(o[1])
+            got_full = M.meaning(kr, expand_macros=True, env={}, resolve=True)
+            if not M.tree_equal(exp_full, got_full):
+                fails.append(("resolved-meaning-differs:expand_let_map", {"diff": M.first_diff(exp_full, got_full), "ov": ov}))
+        except M.MeaningError as ex:
+            fails.append(("result-unresolvable:expand_let_map:" + ex.kind, {"error": str(ex), "ov": ov}))
+        except M.OracleError as ex:
+            fails.append(("malformed-result:expand_let_map", {"error": str(ex)[:200], "ov": ov}))
+        return "ok", fails
     # earlier calls on the SAME circuit object with other environments (a parameter sweep over one parsed circuit):
     # whatever they leave behind must not influence the judged call
     for prior in case.get("prior") or ():
@@ -232,6 +253,9 @@ def shard(ctx):
         for attempt in range(3):
             ov = make_override(rng, prog) if rng.random() < 0.8 else {}
             case = {"prog": prog, "ov": ov, "via_parser": rng.random() < 0.3}
+            if case["via_parser"] and rng.random() < 0.4:
+                case["via_parser"] = "map"
+                rec.count("via-parser-expand-let-map")
             if earlier and not case["via_parser"] and rng.random() < 0.6:
                 case["prior"] = list(earlier)
                 rec.count("calls-after-earlier-calls-on-same-object")
